@@ -206,3 +206,60 @@ pub fn hard_table_report() {
         println!("{name} sample: {:?}", &tab[tab.len() / 2..tab.len() / 2 + 3]);
     }
 }
+
+/// Seed corpora for the libFuzzer targets, derived from the generator families with fixed recipes:
+/// valid inputs that load the big-integer code (boundaries, long tails, sparse-limb integers, the f32
+/// 114-digit limit) for fz_bytes, literals for fz_frontend, recipes for fz_round / fz_vec.
+pub fn write_fuzz_seeds(dir: &PathBuf) {
+    use crate::gen::{mix, Limits, Recipe};
+    let recipe = |i: u64| -> Recipe {
+        let s = mix(0x5eed ^ i.wrapping_mul(0x9e37_79b9_7f4a_7c15));
+        Recipe {
+            sel: [(s >> 3) as u16, (s >> 11) as u16, (s >> 19) as u16, (s >> 27) as u16, (s >> 35) as u16, (s >> 43) as u16, (s >> 5) as u16, (s >> 13) as u16],
+            a: mix(s ^ 1),
+            b: mix(s ^ 2),
+            k: [(s >> 7) as u32, (s >> 17) as u32, (mix(s) >> 9) as u32, (mix(s) >> 21) as u32],
+            digits: (0..40).map(|j| (mix(s ^ (j + 9)) % 10) as u8).collect(),
+        }
+    };
+    let lim = Limits { long: 900, huge: 1500 };
+    let put = |target: &str, name: String, data: Vec<u8>| {
+        let d = dir.join(target);
+        std::fs::create_dir_all(&d).unwrap();
+        std::fs::write(d.join(name), data).unwrap();
+    };
+    let mut n = 0;
+    for i in 0..400u64 {
+        let r = recipe(i);
+        let c = crate::props::c04::case_of(&r, lim);
+        if c.sig_len() > 1400 || c.sig_len() < 20 {
+            continue;
+        }
+        // fz_bytes layout: [selector, (split << 3) | exponent mode 5, exponent as 4 LE bytes, body]
+        let total = c.int.len() + c.frac.len();
+        let split = if total == 0 { 0 } else { (c.int.len() * 31 + total - 1) / total };
+        let mut data = vec![(i & 1) as u8, ((split.min(31) as u8) << 3) | 5];
+        data.extend(c.exp.to_le_bytes());
+        data.extend(&c.int);
+        data.extend(&c.frac);
+        // only keep seeds whose decoded split reproduces the intended one
+        let decoded = (data[1] as usize >> 3) * total / 31;
+        if decoded == c.int.len() {
+            put("fz_bytes", format!("valid{:03}", n), data);
+            n += 1;
+        }
+        if n >= 48 {
+            break;
+        }
+    }
+    for i in 0..40u64 {
+        let r = recipe(1000 + i);
+        let (lit, _) = crate::props::c19::g_j(&r, Limits { long: 300, huge: 400 });
+        if lit.len() <= 480 {
+            put("fz_frontend", format!("gen{:02}", i), lit);
+        }
+        put("fz_round", format!("gen{:02}", i), crate::fuzzglue::recipe_to_bytes(&recipe(2000 + i)));
+        put("fz_vec", format!("gen{:02}", i), crate::fuzzglue::recipe_to_bytes(&recipe(3000 + i)));
+    }
+    println!("fuzz seeds written under {}", dir.display());
+}
